@@ -31,7 +31,7 @@ ASSUMPTIONS = ["object-typed schemas carry a title; documents are served through
 
 def norm_element(x, depth=0):
     """Structural form of an element tree with statham's normal-form aliases identified: Nothing() == False == Not(Element())
-    ("accept nothing") and Element() == True ("accept anything")."""
+    ("accept nothing"), Element() == True ("accept anything"), and an empty tuple of items == its replacement."""
     from statham.schema.constants import NotPassed
     from statham.schema.elements import Element, Not, Nothing
     from statham.schema.property import _Property
@@ -55,6 +55,11 @@ def norm_element(x, depth=0):
         pd = getattr(x, "_properties", None)
         if isinstance(pd, dict):
             items["properties"] = tuple(sorted(((n, (norm_element(p.element, depth + 1), p.required, p.source)) for n, p in pd.items()), key=repr))
+        if items.get("items") == ():
+            # an empty tuple of items: the normal form is its replacement, "items": <the additionalItems schema>
+            ai = items.get("additionalItems", "<T>")
+            items["items"] = "<T>" if ai == "<NP>" else ai
+            items["additionalItems"] = "<T>"
         trivial = type(x) is Element and all(v in ("<NP>", "<T>") or (k == "uniqueItems" and v == "<F>") for k, v in items.items())
         return "<T>" if trivial else ("elem", type(x).__name__, tuple(sorted(items.items(), key=repr)))
     if isinstance(x, _Property):
@@ -169,6 +174,12 @@ def extra_documents():
         out.append({"type": "array", "items": {"type": "object", "title": "Doc", "description": d}})
     for d in ("text", " x ", "a\n  b\n"):
         out.append({"type": "object", "title": "Outer", "description": d, "properties": {"p": {"$ref": "#/definitions/inner"}, "q": {"$ref": "#/definitions/inner"}}, "definitions": {"inner": {"type": "object", "title": "Inner", "description": d + "!", "properties": {"n": {"type": "number", "default": 0}}}}})
+    # keywords holding an empty container next to a composition keyword: the member they form must survive or vanish
+    # the same way in both serializations
+    for empty in ({"properties": {}}, {"patternProperties": {}}, {"required": []}, {"dependencies": {}}, {"items": []}, {"enum": []}, {"properties": {}, "required": []}, {"type": "object", "title": "E", "properties": {}}):
+        for comp in ({"not": {"type": "string"}}, {"anyOf": [{"type": "string"}, {"type": "null"}]}, {"allOf": [{"minimum": 1}]}, {"oneOf": [{"const": 1}, {"const": 2}], "not": {"const": 3}}):
+            out.append({**empty, **comp})
+            out.append({"type": "array", "items": {**empty, **comp}})
     shared = {"type": "string", "minLength": 1}
     for comp in ("allOf", "anyOf", "oneOf"):
         out.append({"type": "object", "title": "R", "properties": {"p": {comp: [{"$ref": "#/definitions/s"}], "default": "d"}, "q": {"$ref": "#/definitions/s"}}, "definitions": {"s": dict(shared)}})
